@@ -231,6 +231,12 @@ func ordCmd(args []string) error {
 		}
 		data := randBytes(rng, l)
 		pfx := p2pkhScript(byte(i))
+		if i%4 == 1 {
+			// a key hash that happens to contain bytes of the envelope (OP_FALSE OP_IF push "ord" / OP_ENDIF ...)
+			h := bytes.Repeat([]byte{byte(i)}, 20)
+			copy(h[(i/4)%14:], []byte{0x00, 0x63, 0x03, 0x6f, 0x72, 0x64})
+			pfx, _ = bscript.NewP2PKHFromPubKeyHash(h)
+		}
 		e := Ev{"ev": "inscribe", "ct": ints([]byte(ct)), "data": ints(data), "prefix": ints(*pfx), "script": []int{}, "outSats": 0,
 			"parsed": Ev{"ok": false, "ct": []int{}, "data": []int{}, "prefix": []int{}}, "isInscr": false, "type": "", "after": []int{}, "data2": []int{}, "script2": []int{}}
 		p, msg := guard(func() {
